@@ -651,6 +651,16 @@ def run(chk):
     chk.rule("must-compress", "propagate-and-compress evolvers return compressed states", 7)
     chk.rule("relative-error-homogeneous", "adaptive error estimates (recorded in the abstract runs of the TDVP wrapper and of the Taylor evolver) divide norms of the same kind, both with or both without the scalar prefactor; general Runge-Kutta evolver: ||tau sum (b - b*) k|| / ||trial||, both full norms", 8)
     chk.rule("adaptive-reject", "adaptive Taylor evolver (abstract run in the algebra of powers of H, scripted error estimates): result = composition of the accepted sub-steps, which add up to the step; rejected trials leave no trace; the same for the embedded Runge-Kutta pairs of the general evolver (free-algebra run)", 5)
+    # ---- the tableaux the general Runge-Kutta evolver integrates with: the exact order conditions of C19, run on a private checker and reported here
+    chk.rule("tableau-order", "every tableau the Runge-Kutta propagate-and-compress evolver can select satisfies the order conditions of its advertised order, its nodes are the row sums and it is "
+             "explicit (the exact folding and rooted-tree conditions of C19, re-emitted: a scheme of lower order converges to exp(-iHt) at another rate than its step control assumes)", 100)
+    from ..report import Check as _Check
+    from . import C19 as _C19
+    sub = _Check("C19", src, tier="quick", repo=getattr(chk, "repo", "/repo"))
+    _C19.run(sub)
+    for o in sub.obs:
+        if o.rule in ("order-condition", "row-sum", "explicit", "shape", "dispatch-total"):
+            chk.ob("tableau-order", f"{o.rule}: {o.key}", o.ok, o.where, o.found, o.expected, detail=o.detail, line=o.line)
     chk.rule("rk-usage", "abstract run of the propagate-and-compress evolvers in the free algebra of time-ordered operator words: one step of the general evolver is the Runge-Kutta "
                          "formula of every tableau, an adaptive run is the composition of its accepted sub-steps with the prescribed error estimate, RK4 and Taylor evolvers equal their formulas", 12)
     # chain schemes: abstract runs with both local solvers, real and imaginary step (chain_rules.tdvp_solver_rule); tree schemes: typed dataflow to every Krylov call
